@@ -153,7 +153,31 @@ impl<'a> GenRec<'a> {
                 gen.update(data);
             }
             1 => {
-                gen.update_by_iter(data.iter().copied());
+                // the iterator form takes ANY iterator: rotate through exact and inexact size hints
+                // (all legal: lower <= actual <= upper)
+                struct Hinted<'x> {
+                    it: std::slice::Iter<'x, u8>,
+                    lo: usize,
+                    hi: Option<usize>,
+                }
+                impl<'x> Iterator for Hinted<'x> {
+                    type Item = u8;
+                    fn next(&mut self) -> Option<u8> {
+                        self.it.next().copied()
+                    }
+                    fn size_hint(&self) -> (usize, Option<usize>) {
+                        (self.lo.min(self.it.len()), self.hi.map(|h| h.max(self.it.len())))
+                    }
+                }
+                let n = data.len();
+                match (n + data.first().copied().unwrap_or(0) as usize) % 6 {
+                    0 => gen.update_by_iter(data.iter().copied()),
+                    1 => gen.update_by_iter(data.iter().copied().filter(|_| true)),           // (0, Some(n))
+                    2 => gen.update_by_iter(Hinted { it: data.iter(), lo: 0, hi: None }),       // (0, None)
+                    3 => gen.update_by_iter(Hinted { it: data.iter(), lo: 0, hi: Some(n + 1000) }),
+                    4 => gen.update_by_iter(Hinted { it: data.iter(), lo: n / 2, hi: Some(usize::MAX) }),
+                    _ => gen.update_by_iter(Hinted { it: data.iter(), lo: n, hi: Some((n as u64 * 3 + (1 << 33)) as usize) }),
+                };
             }
             2 => {
                 for &b in data {
@@ -1346,9 +1370,12 @@ pub fn drive_streams(a: &Args, w: &Words, thorough: bool) {
             }
         }
         let runs: Vec<(u64, usize, bool)> = if thorough {
-            vec![((1 << 32) + 64, 1 << 20, false), ((1 << 33) + 7, 32768, false), ((1 << 32) + 64, 30000, true), (70_000, 1, false)]
+            // (the last ones: the NUMBER of read calls beyond 2^16, 192 GiB / 32 KiB, 2^24 and 2^32)
+            vec![((1 << 32) + 64, 1 << 20, false), ((1 << 33) + 7, 32768, false), ((1 << 32) + 64, 30000, true), (70_000, 1, false),
+                 (7_000_000, 1, false), (6_300_000, 1, true), ((1 << 24) + 5, 1, false), ((1 << 32) + 3, 1, false)]
         } else {
-            vec![((1 << 32) + 64, 1 << 20, false), (100_000, 999, true), (70_000, 1, false)]
+            vec![((1 << 32) + 64, 1 << 20, false), (100_000, 999, true), (70_000, 1, false),
+                 (7_000_000, 1, false), (6_300_000, 1, true), ((1 << 24) + 5, 1, false)]
         };
         for (n, mr, fail) in runs {
             rec.begin();
